@@ -218,12 +218,26 @@ pub fn gen_auth(t: &mut Tape) -> Auth {
 }
 
 pub fn gen_status(t: &mut Tape, class: usize) -> u16 {
+    // half the time a familiar code of the class, otherwise any code of it (the last class also holds the codes above
+    // 599, which `http::StatusCode` accepts up to 999)
+    let familiar = t.flag();
     match class {
-        0 => *t.pick(&[200u16, 200, 201, 204, 299]),
-        1 => *t.pick(&[300u16, 301, 304, 399]),
-        2 => *t.pick(&[400u16, 403, 404, 429, 499]),
-        3 => *t.pick(&[500u16, 502, 503, 599]),
-        _ => *t.pick(&[100u16, 101, 199]),
+        0 if familiar => *t.pick(&[200u16, 200, 201, 204, 299]),
+        0 => 200 + t.choose(100) as u16,
+        1 if familiar => *t.pick(&[300u16, 301, 304, 399]),
+        1 => 300 + t.choose(100) as u16,
+        2 if familiar => *t.pick(&[400u16, 403, 404, 429, 499]),
+        2 => 400 + t.choose(100) as u16,
+        3 if familiar => *t.pick(&[500u16, 502, 503, 599]),
+        3 => 500 + t.choose(100) as u16,
+        _ if familiar => *t.pick(&[100u16, 101, 199, 600, 999]),
+        _ => {
+            if t.flag() {
+                100 + t.choose(100) as u16
+            } else {
+                600 + t.choose(400) as u16
+            }
+        }
     }
 }
 
@@ -331,8 +345,8 @@ pub fn gen_script(t: &mut Tape, p: &Profile) -> Script {
         storage_init: vec![],
         timings: t.vec_of(4, |t| TimingSpec {
             kind: t.weighted(&[3, 3, 3, 2]) as u8,
-            delta_ms: *t.pick(&[3_600_000u64, 0, 1, 1000, 86_400_000]),
-            min_wait_ms: t.option(|t| *t.pick(&[0u64, 1, 1000, 60_000])),
+            delta_ms: if t.chance(1, 4) { t.choose(200_000_000) as u64 } else { *t.pick(&[3_600_000u64, 0, 1, 1000, 86_400_000]) },
+            min_wait_ms: t.option(|t| if t.chance(1, 4) { 1_800_001 + t.choose(10_000_000) as u64 } else { *t.pick(&[0u64, 1, 1000, 60_000]) }),
         }),
         check_decisions: (0..ndec).map(|_| gen_decision(t, p)).collect(),
         can_start: t.vec_of(4, |t| t.weighted(&[5, 1, 1]) as u8),
@@ -345,11 +359,11 @@ pub fn gen_script(t: &mut Tape, p: &Profile) -> Script {
         faults: FaultSpec::default(),
         clock: if p.clock_jumps {
             t.vec_of(12, |t| ClockStep {
-                advance_ns: *t.pick(&[1_000_003u64, 0, 1, 999, 1_000_000_000, 3_600_000_000_000]),
+                advance_ns: if t.chance(1, 4) { t.u32_biased() as u64 * 977 } else { *t.pick(&[1_000_003u64, 0, 1, 999, 1_000_000_000, 3_600_000_000_000]) },
                 wall_jump: if t.chance(1, 3) { Some(gen_wall_jump(t)) } else { None },
             })
         } else {
-            t.vec_of(6, |t| ClockStep { advance_ns: *t.pick(&[1_000_003u64, 1, 999, 1_000_000, 1_000_000_000, 60_000_000_000]), wall_jump: None })
+            t.vec_of(6, |t| ClockStep { advance_ns: if t.chance(1, 4) { 1 + t.u32_biased() as u64 * 977 } else { *t.pick(&[1_000_003u64, 1, 999, 1_000_000, 1_000_000_000, 60_000_000_000]) }, wall_jump: None })
         },
         apps,
         start_wall_ns: 1_700_000_000_000_000_000 + t.choose(1000) as i128,
